@@ -127,7 +127,8 @@ def verify_unit(unit, prop, specdir, outroot, tier, budget):
     timeout = unit.timeout or budget["timeout"]
     gb1 = os.path.join(outdir, "a.gb")
     gb2 = os.path.join(outdir, "b.gb")
-    cmd1 = ["goto-cc", "-DVX_CBMC", "-I", PRELUDE, "-I", specdir, "--function", unit.entry] + \
+    tdir = os.path.dirname(os.path.normpath(os.path.join(specdir, unit.template)))
+    cmd1 = ["goto-cc", "-DVX_CBMC", "-I", PRELUDE, "-I", specdir, "-I", tdir, "--function", unit.entry] + \
         ["-D" + d for d in unit.defines] + [cpath, "-o", gb1]
     rc, so, se, _ = _sh(cmd1, 120)
     res["cmds"].append(" ".join(cmd1))
@@ -494,7 +495,8 @@ def replay(unit, res, specdir, outroot, prop):
                 src = os.path.join(outdir, "replay_%d.c" % idx)
                 exe = os.path.join(outdir, "replay_%d" % idx)
                 open(src, "w").write(prog)
-                cmd = ["gcc", "-std=gnu11", "-O0", "-w", "-DVX_NATIVE", "-I", PRELUDE, "-I", specdir] + \
+                tdir = os.path.dirname(os.path.normpath(os.path.join(specdir, unit.template)))
+                cmd = ["gcc", "-std=gnu11", "-O0", "-w", "-DVX_NATIVE", "-I", PRELUDE, "-I", specdir, "-I", tdir] + \
                     ["-D" + d for d in unit.defines] + [src, "-o", exe]
                 rc, so, se, _ = _sh(cmd, 120)
                 if rc != 0:
